@@ -402,7 +402,7 @@ def build_c06(rng, tier):
     sw = {'twopl': True, 'zero_cap': rng.random() < 0.5,
           'ties2': rng.choice([0, .3, .5, .7, 1]), 'lowq': False}
     inst = instances.gen_instance(rng, sw, thorough=False)
-    opts = {'criteria': [], 'pc': rng.random() < 0.2, 'stab': True,
+    opts = {'criteria': [], 'pc': rng.random() < 0.35, 'stab': True,
             'flag_order': None}
     if rng.random() < 0.25:
         # corollary: fault-free -stab run prints stability_correct: True
